@@ -327,7 +327,7 @@ pub fn plan(prop: &str, tier: &str, seed: u64) -> Option<Plan> {
                     p.jobs.push(j);
                 }
             }
-            p.required_nonzero = sv(&["c15_values_checked", "c15_out_of_bounds_refusals", "c15_truncated_varints_refused", "c15_slice_length_checks"]);
+            p.required_nonzero = sv(&["c15_values_checked", "c15_out_of_bounds_refusals", "c15_truncated_varints_refused", "c15_slice_length_checks", "c15_slice_length_checks_on_cleared_arenas"]);
             p.extra_prefixes = vec!["c15_"];
             p.assumptions = vec!["the reference LEB128 decoder (base-128, zig-zag for signed) is the harness' own".into(), "a reader that dies (signal) on an extreme offset is reported through the child's exit status".into()];
         }
